@@ -217,6 +217,15 @@ def h02a(c, mode="sim"):
             else:
                 for k in before:
                     c.ob("refused.%s-unchanged" % k, after[k] == before[k], before=str(before[k])[:60], after=str(after[k])[:60])
+            if op == "place" and mode == "sim" and src in ("txn-limit", "custom-control") and not force:
+                # the order was refused by a control of the first client: the same order object placed through the other client is accepted and
+                # belongs to that client from then on (every view by client lists it there and only there)
+                with c.guard("retry-with-other-client"):
+                    ok2 = market.place_order(order, client=other_client)
+                c.ob("retry-with-other-client.accepted", ok2 is True)
+                c.ob("retry-with-other-client.order-belongs-to-it", order.client is other_client and any(x is order for x in market.blotter.client_orders(other_client))
+                     and not any(x is order for x in market.blotter.client_orders(client)), client=getattr(order.client, "username", None))
+                c.cover("retried-with-other-client")
         else:
             c.cover("accepted")
             kind = {"place": OrderPackageType.PLACE, "cancel": OrderPackageType.CANCEL, "update": OrderPackageType.UPDATE, "replace": OrderPackageType.REPLACE}[op]
